@@ -109,6 +109,11 @@ class Purity:
                 return False
             if isinstance(e.func, ast.Attribute) and e.func.attr in VIEW_METHODS and self.may_alias(e.func.value, A, path, cls_key, depth):
                 return True
+            if isinstance(e.func, ast.Attribute) and e.func.attr == 'astype':
+                # x.astype(t, copy=False) returns x itself when the dtype already matches
+                cp = U.kwarg(e, 'copy')
+                if cp is not None and not (isinstance(cp, ast.Constant) and cp.value is True):
+                    return self.may_alias(e.func.value, A, path, cls_key, depth)
             if name in ('zip', 'enumerate', 'reversed', 'iter', 'list', 'tuple'):
                 return any(self.may_alias(a, A, path, cls_key, depth) for a in e.args)
             if self.opaque_params_alias and self._callables and isinstance(e.func, ast.Name) and e.func.id in self._callables[-1]:
